@@ -2,7 +2,8 @@
    Asp/Ground.v: ground programs of the emitted class and their stable models; hierarchical_stable is the characterisation
    used for the core fragment.  Cnl/Core.v: the core fragment F0, its compile model (byte-exact on F0), grounding, and the reading. *)
 Require Import Coq.Strings.String Coq.Lists.List Coq.Bool.Bool.
-Require Import Cnl2aspV.Asp.Ground Cnl2aspV.Cnl.Core.
+Require Import Coq.ZArith.ZArith.
+Require Import Cnl2aspV.Asp.Ground Cnl2aspV.Cnl.Core Cnl2aspV.Cnl.CoreProofs.
 Import ListNotations.
 
 (* for hierarchical ground programs (no predicate depends on itself): I is a stable model iff it satisfies the constraints and
@@ -11,3 +12,22 @@ Theorem C01_hierarchical_stable :
   forall (lvl : gatom -> nat) (P : list grule) (I : interp), hierarchical lvl P -> (stable P I <-> scb P I = true).
 Proof. exact hierarchical_stable. Qed.
 Print Assumptions C01_hierarchical_stable.
+
+(* Core fragment, named-instance constraints ("It is required/prohibited that there is [not] a <relation> with c k equal to a,
+   with d k equal to b"): the ground constraint the sentence compiles to (compile model of Cnl/Core.v, byte-exact against the
+   implementation on every run) holds in exactly the interpretations the sentence admits -- for every universe of values,
+   every relation, every pair of values and every interpretation.  The requirement of a negated clause is the single-clause
+   branch of constraint_proposition (the clause itself is negated, not the members of a list). *)
+Theorem C01_named_instance_constraint_partial :
+  forall (s : spec) (U : list string) (required neg : bool) (v : verb) (a b : string) (I : interp),
+    constraints_ok I (flat_map (ground_rule U) (compile_sentence s (SThere required neg v a b))) =
+    Bool.eqb (holds I (atom_text (verb_pred v) [term_of_token a; term_of_token b])) (xorb required neg).
+Proof. exact there_sentence_correct. Qed.
+Print Assumptions C01_named_instance_constraint_partial.
+
+(* "where L is one of v1..vn" after k rules gives k*n rules (a second clause multiplies: the cartesian product) *)
+Theorem C01_one_of_multiplies :
+  forall (s : spec) (l : string) (vals : list Z) (y : sentence),
+    length (compile_sentence s (SOneOf l vals y)) = length (compile_sentence s y) * length vals.
+Proof. exact one_of_count. Qed.
+Print Assumptions C01_one_of_multiplies.
